@@ -2375,11 +2375,39 @@ def c10_combine_two_pops(ns, tocombine):
                 made.append((arr, kw))
                 return arr
             return NotImplemented
-        ex = Executor(getattr_hook=gh)
+        ex = Executor(getattr_hook=gh, max_paths=6)
+        ex.truncate_paths = True
         ex.abstract_hook = ah
         fr = ex.func('dadi/Spectrum_mod.py', 'Spectrum.combine_two_pops')
         paths = ex.run(fr, [data, VList(list(tocombine))], {})
-        if len(paths) != 1 or paths[0].outcome != 'return' or len(made) != 1:
+        if len(paths) != 1:
+            # the function does not depend on the VALUES of the entries: if it branches on them, check the law on the branches explored
+            # (a refutation on one of them is a refutation; without one the obligation is undecided, never proved)
+            rets = [p for p in paths if p.outcome == 'return']
+            found = []
+            for p_ in rets[:6]:
+                r_ = p_.value
+                at_ = r_.__dict__.get('attrs', {}) if isinstance(r_, VList) else {}
+                rm = at_.get('mask')
+                if rm is None:
+                    continue
+                lo_, hi_ = sorted(t - 1 for t in tocombine)
+                for idx in f:
+                    j_ = list(idx)
+                    j_[lo_] = idx[lo_] + idx[hi_]
+                    del j_[hi_]
+                    got = _nd_get(rm, tuple(j_))
+                    got = z3.BoolVal(got) if isinstance(got, bool) else got
+                    chk = prove('%s.branch.mask-includes-%s' % (oid, '_'.join(map(str, idx))), list(p_.pc), z3.Implies(m[idx], got), fn)
+                    if chk['verdict'] == 'refuted':
+                        found.append(chk)
+                        break
+                if found:
+                    break
+            if found:
+                return found
+            return [struct(oid, False, 'the function branches on the entries\' values (%d paths explored, truncated=%s): %r' % (len(paths), getattr(ex, 'truncated', False), paths[:2]), fn, undecided=True)]
+        if paths[0].outcome != 'return' or len(made) != 1:
             return [struct(oid, False, 'expected one returning path constructing one Spectrum: %r' % paths[:2], fn, undecided=True)]
         res = paths[0].value
         pc = list(paths[0].pc)
@@ -4423,5 +4451,58 @@ def c17_vourlaki_mixture():
             out.append(prove_eq('%s.%s' % (oid, name), pc, lf[ks[0]][1], want, fn))
         extra = [k for k in lf if k not in used]
         out.append(struct(oid + '.no-other-terms', not extra, 'no further terms' if not extra else 'unexpected terms: %s' % [k[:120] for k in extra], fn))
+        return out
+    return go()
+
+
+def c16_export_names():
+    """Demes.output(): how deme names are carried down the event log when an event has none of its own (the loop over (older, younger) pairs):
+       Split -> fresh names, one more than before; Remove(k) -> the older names without the k-th (1-based); Reorder(neworder) -> name k of the younger
+       event is the older name number neworder[k] (the same convention as PhiManip.reorder_pops: axis k of the result is population neworder[k]);
+       an integration directly after an integration starts a new era of fresh names; otherwise the names are inherited unchanged; explicit names win."""
+    oid = 'C16/Demes/__init__.py:output/name-inheritance'
+    fn = 'dadi/Demes/__init__.py::output'
+
+    @guarded(oid, fn)
+    def go():
+        from vf.pyvc import Env, PathCtx
+        mod = ModInfo.load('dadi/Demes/__init__.py')
+        node = mod.funcs['output']
+        loop = None
+        for st in ast.walk(node):
+            if isinstance(st, ast.For) and isinstance(st.target, ast.Tuple) and [getattr(e, 'id', None) for e in st.target.elts] == ['older', 'younger']:
+                loop = st
+                break
+        if loop is None:
+            return [struct(oid, False, 'no loop over (older, younger) found in output()', fn, undecided=True)]
+        C = lambda n: ClassRef(mod, mod.classes[n])
+        mk = lambda cls, **at: VObj(cls, __class__=C(cls), **at)
+        ev = [mk('Initiation', duration=Tm('inf'), deme_ids=VList(['anc'])),
+              mk('Split', duration=0, deme_ids=VList(['A', 'B']), proportions=VList([1])),
+              mk('Split', duration=0, deme_ids=None, proportions=VList([1, 0])),                       # -> fresh names, 3 of them
+              mk('IntegrationConst', duration=z3.RealVal(1), deme_ids=VList(['X', 'Y', 'Z'])),           # explicit names win
+              mk('Reorder', duration=0, deme_ids=None, neworder=VList([2, 3, 1])),                     # non self-inverse permutation
+              mk('IntegrationConst', duration=z3.RealVal(1), deme_ids=None),                          # inherits from the Reorder (older.duration == 0)
+              mk('Remove', duration=0, deme_ids=None, removed=2),
+              mk('IntegrationConst', duration=z3.RealVal(1), deme_ids=None),
+              mk('IntegrationConst', duration=z3.RealVal(2), deme_ids=None)]                          # integration right after an integration: new era
+        ex = Executor()
+        ex.ctx = PathCtx([], [], ex)
+        env = Env(None, mod)
+        env.vars.update(cache=VList(list(ev)), era=1)
+        ex.exec_stmt(loop, env, mod)
+        ids = [list(ex.iterate(e.attrs['deme_ids'])) if e.attrs['deme_ids'] is not None else None for e in ev]
+        out = []
+        exp = {2: lambda v: v is not None and len(v) == 3 and len(set(v)) == 3 and not (set(v) & {'A', 'B'}),
+               3: lambda v: v == ['X', 'Y', 'Z'],
+               4: lambda v: v == ['Y', 'Z', 'X'],
+               5: lambda v: v == ['Y', 'Z', 'X'],
+               6: lambda v: v == ['Y', 'X'],
+               7: lambda v: v == ['Y', 'X'],
+               8: lambda v: v is not None and len(v) == 2 and not (set(v) & {'X', 'Y', 'Z'})}
+        what = {2: 'split without names: three fresh names', 3: 'explicit names kept', 4: 'Reorder([2,3,1]): names (Y, Z, X)', 5: 'integration after the reorder inherits (Y, Z, X)',
+                6: 'Remove(2) drops the second name', 7: 'integration inherits (Y, X)', 8: 'second consecutive integration: fresh names for a new era'}
+        for k in sorted(exp):
+            out.append(struct('%s.event%d' % (oid, k), bool(exp[k](ids[k])), '%s (got %s)' % (what[k], ids[k]), fn))
         return out
     return go()
